@@ -547,7 +547,9 @@ class MessageInterfaceUDP6(RecvmsgDatagramProtocol, interfaces.MessageInterface)
                 host,
                 port,
             ).__anext__()
-        except socket.gaierror:
+        except (socket.gaierror, UnicodeError):
+            # UnicodeError is what the IDNA step of name resolution raises for
+            # a name with an empty or overlong label
             raise error.ResolutionError(
                 "No address information found for requests to %r" % host
             )
